@@ -12,7 +12,7 @@ use serde_json::{json, Value};
 pub fn def() -> PropDef {
     PropDef {
         id: "C13",
-        rule: "grammar-derived valid texts (9 types x boundary values x 3 keyword casings x 5 whitespace layouts) must synthesise to the reference wire form and stay parseable when inserted in each section; targeted must-reject texts and every single-token drop/duplication must fail; every single-character damage (delete/replace/insert from a 14-character menu at every position) of a valid subset and every string over a 12-character alphabet up to length n (free and after each 'a 1 IN <TYPE> ' prefix) must not panic and, if accepted, must be one well-formed record; distinct classes = (family, type, outcome)",
+        rule: "grammar-derived valid texts (9 types x boundary values x 3 keyword casings x 5 whitespace layouts) must synthesise to the reference wire form (so must the typed builder called directly with the same field values) and stay parseable when inserted in each section; targeted must-reject texts and every single-token drop/duplication must fail; every single-character damage (delete/replace/insert from a 14-character menu at every position) of a valid subset and every string over a 12-character alphabet up to length n (free and after each 'a 1 IN <TYPE> ' prefix) must not panic and, if accepted, must be one well-formed record; distinct classes = (family, type, outcome)",
         run,
         replay,
         bounds: |t| json!({"valid_records": valid_records(t.pick(0, 1)).len(), "keyword_cases": 3, "ws_layouts": WS_VARIANTS, "free_string_len": t.pick(6, 7), "alphabet": String::from_utf8_lossy(ALPHA).to_string(), "damage_chars": String::from_utf8_lossy(DAMAGE).to_string()}),
@@ -79,6 +79,33 @@ fn check_valid(tr: &TextRec, kw: usize, ws: usize, deep: bool) -> Result<String,
         }
     }
     if deep {
+        // the typed builders the grammar feeds, called directly with the same field values
+        let h = r#gen::RRHeader { name: tr.owner.clone().into_bytes(), ttl: tr.ttl, class: Class::IN, rr_type: Type::from_string(tn).map_err(|e| ("builder:type_name".to_string(), e.to_string()))? };
+        let built = caught(|| {
+            use refmodel::text::Kind;
+            match &tr.kind {
+                Kind::A(ip) => r#gen::A::build(h.clone(), std::net::Ipv4Addr::from(*ip)),
+                Kind::Aaaa(_, ip) => r#gen::AAAA::build(h.clone(), std::net::Ipv6Addr::from(*ip)),
+                Kind::Ns(n) => r#gen::NS::build(h.clone(), n.clone().into_bytes()),
+                Kind::Cname(n) => r#gen::CNAME::build(h.clone(), n.clone().into_bytes()),
+                Kind::Ptr(n) => r#gen::PTR::build(h.clone(), n.clone().into_bytes()),
+                Kind::Txt(raw, _) => r#gen::TXT::build(h.clone(), raw.clone()),
+                Kind::Mx(p, n) => r#gen::MX::build(h.clone(), *p, n.clone().into_bytes()),
+                Kind::Soa(a, b, n) => r#gen::SOA::build(h.clone(), a.clone().into_bytes(), b.clone().into_bytes(), n[0], n[1], n[2], n[3], n[4]),
+                Kind::Ds(k, a, d, hexs) => r#gen::DS::build(h.clone(), *k, *a, *d, refmodel::text::hex_bytes(hexs)),
+            }
+            .map(|rr| (rr.packet.clone(), rr.rdata().to_vec()))
+            .map_err(|e| e.to_string())
+        });
+        match built {
+            Err(p) => return Err((format!("builder:panic:{}", panic_site(&p)), format!("the {} builder panicked: {}", tn, p))),
+            Ok(Err(e)) => return Err((format!("builder_failed:{}", tn), format!("the {} builder refused the fields of valid text {:?}: {}", tn, short(&text), e))),
+            Ok(Ok((pk, rd))) => {
+                if pk != want || rd[..] != want[want.len() - rd.len()..] || rd.len() != be16(&want, rec.owner.len() + 8) as usize {
+                    return Err((format!("builder_wrong_wire:{}", tn), format!("the {} builder returned {} (data {} bytes), expected {}", tn, shex(&pk), rd.len(), shex(&want))));
+                }
+            }
+        }
         let hosts: Vec<Vec<u8>> = {
             let mut m = base_msg(&nm("b.a"), T_A, true);
             m.an.push(a_rec(&nm("b.a"), 1, [1, 1, 1, 1]));
